@@ -7,15 +7,15 @@ seeds, _, benign = out.partition("\n| property-preserving change")
 benign = "| property-preserving change" + benign if benign else ""
 intro = '''Independent sub-agents were each given **only the text of one property** and a scratch worktree
 of /repo (nothing from /verif) and asked for realistic changes that break the property, still
-compile, keep all 259 repository tests green and need something specific to manifest; six rounds
-(2, 3, 2, 2, 2 and 2 variants per property; the fourth round for 8 properties, the fifth for 5, the
-sixth for 4). I confirmed every delivered change myself in a scratch
+compile, keep all 259 repository tests green and need something specific to manifest; seven rounds
+(2, 3, 2, 2, 2, 2 and 1 variants per property; the fourth round for 8 properties, the fifth for 5, the
+sixth for 4, the seventh for 12). I confirmed every delivered change myself in a scratch
 worktree (`tools/confirm_seeds.sh`: the patch applies, the suite passes 259/0, the author's
 demonstration behaves differently with and without the change); changes that conflicted with my
 repairs were rebased by hand (noted in their meta.json). Confirmed seeds live in `seeded/<id>/`
 (patch.diff, demo/, meta.json). `tools/eval_seeds.py` applies a seed to /repo, runs quick checks
 (evidence and replays redirected), undoes it straight afterwards, and records what each check
-reported. "r2".."r6" mark the later rounds. Where the *first version* of a check missed a seed, that
+reported. "r2".."r7" mark the later rounds. Where the *first version* of a check missed a seed, that
 was measured with the then-committed harness before the check was strengthened (last column);
 the strengthenings are listed in 12.8 and are always a generalisation of the universe (new alphabet
 letters, shapes, bounds), never a special case for the seed's input. The column "own check" says
